@@ -9,6 +9,13 @@ from ..vrules import accept_language, consistent, describe_valuation, semantic, 
 
 
 def run(ctx, report):
+    # premise of the symbolic model below (it starts from the cleaned text): the object carries clean(raw), clean removes exactly the
+    # whitespace and upper-cases.  A finding here means the statement's "after removing whitespace and upper-casing" is already broken.
+    from .c10 import normalisation_rules
+    try:
+        normalisation_rules(ctx, report, "R04-P0")
+    except AnalysisError as e:
+        report.notes.append(f"normalisation premise not decided: {e}")
     m = BicModel(ctx)
     A = m.alpha
     report.explanation = (
